@@ -101,6 +101,7 @@ func (p *Plenc) CodecForTypeRegistry(registry plenccodec.CodecRegistry, typ refl
 	if c != nil {
 		return c, nil
 	}
+	verifYield("registry-miss")
 
 	var err error
 
@@ -276,6 +277,7 @@ func (p *Plenc) CodecForTypeRegistry(registry plenccodec.CodecRegistry, typ refl
 		return nil, fmt.Errorf("could not find or create a codec for %s", typ)
 	}
 
+	verifYield("before-store")
 	return registry.StoreOrSwap(typ, tag, c), nil
 }
 
